@@ -151,6 +151,8 @@ def check_case(spec: dict) -> dict:
         plain = scan_outcome(base, exclusions=(), regex_exclusions=())
         g_run = scan_outcome(base, exclusions=tuple(globs))
         r_run = scan_outcome(base, exclusions=(), regex_exclusions=tuple(regexes))
+        # external libraries included: an import of an excluded internal module must not bring that module back
+        x_run = scan_outcome(base, exclusions=tuple(globs), exclude_external_libraries=False)
 
     def glob_match(path):
         return any(M.glob_matches(g, path) for g in globs)
@@ -193,6 +195,18 @@ def check_case(spec: dict) -> dict:
             v(f"{name}/modules-{cls}", f"patterns {globs}: modules {sorted(got_mods)} != expected {sorted(want_mods)}")
         elif got_imps != want_imps:
             v(f"{name}/imports", f"patterns {globs}: imports {sorted(got_imps)} != expected {sorted(want_imps)}")
+    if x_run[0] != "ok":
+        if want_mods:
+            v("glob+externals-included/scan-error", f"patterns {globs}: {x_run[1]}")
+    else:
+        internal = {m for m in x_run[1][0] if m == root or m.startswith(root + ".")}
+        if internal != want_mods:
+            cls = "still-present" if internal - want_mods else "wrongly-removed"
+            v(f"glob+externals-included/modules-{cls}", f"patterns {globs}, exclude_external_libraries=False: internal modules {sorted(internal)} != expected {sorted(want_mods)}")
+        else:
+            gi = {(a, b) for a, b in PS.drop_ancestor_imports(x_run[1][1]) if a in want_mods and b in want_mods}
+            if gi != want_imps:
+                v("glob+externals-included/imports", f"patterns {globs}, exclude_external_libraries=False: imports {sorted(gi)} != expected {sorted(want_imps)}")
     n_excl = len(all_mods) - len(want_mods)
     dir_hit = any(M.glob_matches(g, f"{base}/{d}") for g in globs for d in spec["dirs"])
     labels = [f"shapes={'+'.join(shapes)}", "dir-hit" if dir_hit else "file-hit-only", f"excluded={'none' if n_excl == 0 else ('all' if not want_mods else 'some')}"]
@@ -202,7 +216,7 @@ def check_case(spec: dict) -> dict:
 @st.composite
 def cases(draw):
     tree = draw(PS.project_trees(names=WEIRD, max_depth=3))
-    tree = draw(PS.with_imports(tree))
+    tree = draw(PS.with_imports(tree, extra_targets=["os.path", "json", "ab", "tests.helpers"]))
     ents = entries(tree)
     globs = []
     for _ in range(draw(st.integers(1, 3))):
